@@ -66,3 +66,11 @@ func VerifNewServerHandlerWith(catLimiter, tailLimiter chan struct{}) *ServerHan
 
 // VerifPending: bytes of a message that did not fit into the previous Read.
 func (h *ServerHandler) VerifPending() int { return h.readBuf.Len() }
+
+// VerifQuery: the raw text of the mapreduce query the handler runs ("" if none).
+func (h *ServerHandler) VerifQuery() string {
+	if h.aggregate == nil {
+		return ""
+	}
+	return h.aggregate.VerifRawQuery()
+}
